@@ -166,6 +166,7 @@ def strategy(tier):
         "wildcard_observer": st.booleans(),
         "reregister": st.sampled_from([False, False, True]),
         "churn": st.sampled_from([False, False, True]),
+        "readd": st.sampled_from([False, False, True]),
         "ops": st.lists(op_strategy(), min_size=1, max_size=30),
     })
 
@@ -210,6 +211,14 @@ def run(case, ctx):
                 continue
             o.on_trait_change(otc, nm, priority=bool(i_ % 2))
         ctx.label("handlers-registered-twice")
+    if case.get("readd"):
+        # the object re-declares some of its traits for itself (add_trait over the existing name, same definition): every
+        # handler keeps serving it exactly as before
+        for i_, nm in enumerate(NAMES):
+            if i_ % 3 == 0 and not nm.startswith(("ro_", "event_", "cevent_")):
+                kind_, mode_ = nm.split("_")
+                o.add_trait(nm, mk({"any": "Any", "int": "Int", "str": "Str", "list": "List", "inst": "Inst", "float": "Float"}[kind_], mode_))
+        ctx.label("traits-re-added-on-the-instance")
     if case.get("churn"):
         # a handler and an observer that come and go on EVERY trait before the history starts: the traits that had no
         # handler of their own now have an (empty) notifier list of their own
